@@ -290,7 +290,7 @@ impl Check for C14 {
     fn run_shard(&self, ctx: &Ctx, rec: &mut Rec) {
         let total = match ctx.tier {
             Tier::Quick => 9000,
-            Tier::Thorough => 30000,
+            Tier::Thorough => 150000,
         };
         prop_loop(ctx, rec, "gen", strategy(), ctx.share(total), judge);
     }
